@@ -8,6 +8,7 @@ import (
 	"regexp"
 	"strings"
 
+	"golang.org/x/tools/go/ssa"
 	"golang.org/x/tools/go/types/typeutil"
 )
 
@@ -667,61 +668,176 @@ func pathFactsGeneric(d *declInfo, stmt ast.Node, id *ast.Ident) []bool {
 	return out
 }
 
-// wrappersPropagate: C19-D6.
+// wrappersPropagate: C19-D6 — decided on SSA so that early-return and single-exit styles are the
+// same program: on every path that leaves the true branch of `backendErr != nil`, the wrapper's
+// returned error is a freshly constructed error or the backend's error itself.
 func wrappersPropagate(c *Ctx) {
 	const R = "wrapper-propagates-error"
-	c.rule(R, "Writer.StoreWithOptions / Reader.RetrieveWithOptions bind the backend's error, test it against nil and return a non-nil error in that branch")
+	c.rule(R, "in Writer.StoreWithOptions / Reader.RetrieveWithOptions the error result of the backend call is compared with nil, and every return reached from the non-nil branch returns a non-nil error (fmt.Errorf / errors.New / the backend error), whatever the exit style")
 	for _, w := range [][2]string{{"writer.(*Writer).StoreWithOptions", "Store"}, {"reader.(*Reader).RetrieveWithOptions", "Retrieve"}} {
-		d := c.decl(R, w[0])
-		if d == nil {
+		fn := c.P.Func(w[0])
+		if fn == nil {
+			c.undecided(R, "anchor:"+w[0], "-", "wrapper not found")
 			continue
 		}
-		ok := false
-		ast.Inspect(d.fd.Body, func(n ast.Node) bool {
-			ifs, isIf := n.(*ast.IfStmt)
-			if !isIf {
-				return true
+		c.sawFunc(w[0])
+		ok, why := errorPropagates(fn, w[1])
+		c.check(ok, R, w[0], c.P.Pos(fn.Pos()), "backend error is checked and returned", "the backend's error is not checked-and-returned ("+why+"): a failing store/retrieve is reported as success")
+	}
+}
+
+// errorPropagates finds the call of method/function `name` in fn whose last result is an error and
+// checks the rule above.
+func errorPropagates(fn *ssa.Function, name string) (bool, string) {
+	errT := types.Universe.Lookup("error").Type()
+	var errVal ssa.Value
+	for _, b := range fn.Blocks {
+		for _, ins := range b.Instrs {
+			call, ok := ins.(*ssa.Call)
+			if !ok {
+				continue
 			}
-			be, isBe := ifs.Cond.(*ast.BinaryExpr)
-			if !isBe || be.Op != token.NEQ || !isNilIdent(d.pkg, be.Y) {
-				return true
+			cc := call.Common()
+			cname := ""
+			if cc.IsInvoke() {
+				cname = cc.Method.Name()
+			} else if sc := cc.StaticCallee(); sc != nil {
+				cname = sc.Name()
 			}
-			errObj := objOf(d.pkg, be.X)
-			// the error comes from the backend call (in the init or just before)
-			fromBackend := false
-			ast.Inspect(d.fd.Body, func(m ast.Node) bool {
-				as, isAs := m.(*ast.AssignStmt)
-				if !isAs || len(as.Rhs) != 1 || as.Pos() > ifs.Body.Pos() {
-					return true
+			if cname != name {
+				continue
+			}
+			res := cc.Signature().Results()
+			if res.Len() == 0 || !types.Identical(res.At(res.Len()-1).Type(), errT) {
+				continue
+			}
+			if res.Len() == 1 {
+				errVal = call
+			} else {
+				for _, ref := range *call.Referrers() {
+					if ex, ok := ref.(*ssa.Extract); ok && ex.Index == res.Len()-1 {
+						errVal = ex
+					}
 				}
-				ce, isCall := as.Rhs[0].(*ast.CallExpr)
-				if !isCall {
-					return true
+			}
+		}
+	}
+	if errVal == nil {
+		return false, "the backend call or its error result was not found"
+	}
+	// the branch on errVal != nil
+	var region *ssa.BasicBlock
+	for _, ref := range *errVal.Referrers() {
+		bo, ok := ref.(*ssa.BinOp)
+		if !ok || (bo.Op != token.NEQ && bo.Op != token.EQL) {
+			continue
+		}
+		other := bo.Y
+		if other == errVal {
+			other = bo.X
+		}
+		if k, isC := other.(*ssa.Const); !isC || !k.IsNil() {
+			continue
+		}
+		for _, r2 := range *bo.Referrers() {
+			iff, ok := r2.(*ssa.If)
+			if !ok {
+				continue
+			}
+			t := iff.Block().Succs[0]
+			if bo.Op == token.EQL {
+				t = iff.Block().Succs[1]
+			}
+			region = t
+		}
+	}
+	if region == nil {
+		return false, "the backend error is never compared with nil"
+	}
+	nonNil := func(v ssa.Value) bool {
+		for {
+			switch x := v.(type) {
+			case *ssa.ChangeInterface:
+				v = x.X
+				continue
+			case *ssa.MakeInterface:
+				return true
+			case *ssa.Call:
+				if sc := x.Common().StaticCallee(); sc != nil {
+					switch sc.String() {
+					case "fmt.Errorf", "errors.New", "errors.Join":
+						return true
+					}
 				}
-				if sel, isSel := ce.Fun.(*ast.SelectorExpr); isSel && sel.Sel.Name == w[1] {
-					for _, l := range as.Lhs {
-						if objOf(d.pkg, l) == errObj {
-							fromBackend = true
+				return false
+			}
+			return v == errVal
+		}
+	}
+	// walk from the region entry; phis are resolved by the edge taken
+	type state struct {
+		b, pred *ssa.BasicBlock
+	}
+	seen := map[state]bool{}
+	bad := ""
+	var walk func(b, pred *ssa.BasicBlock, subst map[*ssa.Phi]ssa.Value, depth int)
+	walk = func(b, pred *ssa.BasicBlock, subst map[*ssa.Phi]ssa.Value, depth int) {
+		if depth > 40 || seen[state{b, pred}] || bad != "" {
+			return
+		}
+		seen[state{b, pred}] = true
+		sub := map[*ssa.Phi]ssa.Value{}
+		for k, v := range subst {
+			sub[k] = v
+		}
+		for _, ins := range b.Instrs {
+			phi, ok := ins.(*ssa.Phi)
+			if !ok {
+				break
+			}
+			for i, p := range b.Preds {
+				if p == pred {
+					v := phi.Edges[i]
+					if pv, isPhi := v.(*ssa.Phi); isPhi {
+						if r, has := sub[pv]; has {
+							v = r
 						}
 					}
-				}
-				return true
-			})
-			if !fromBackend {
-				return true
-			}
-			for _, s := range ifs.Body.List {
-				if rs, isRet := s.(*ast.ReturnStmt); isRet && len(rs.Results) > 0 {
-					last := rs.Results[len(rs.Results)-1]
-					if !isNilIdent(d.pkg, last) {
-						ok = true
-					}
+					sub[phi] = v
 				}
 			}
-			return true
-		})
-		c.check(ok, R, w[0], c.P.Pos(d.fd.Pos()), "backend error is checked and returned", "the backend's error is not checked-and-returned: a failing store/retrieve is reported as success")
+		}
+		switch last := b.Instrs[len(b.Instrs)-1].(type) {
+		case *ssa.Return:
+			if len(last.Results) == 0 {
+				bad = "a return without results"
+				return
+			}
+			v := last.Results[len(last.Results)-1]
+			if pv, isPhi := v.(*ssa.Phi); isPhi {
+				if r, has := sub[pv]; has {
+					v = r
+				}
+			}
+			if !nonNil(v) {
+				bad = fmt.Sprintf("a return reached from the failure branch returns %s", v.Name())
+			}
+		case *ssa.Panic:
+		default:
+			for _, s := range b.Succs {
+				walk(s, b, sub, depth+1)
+			}
+		}
 	}
+	var entryPred *ssa.BasicBlock
+	if len(region.Preds) > 0 {
+		entryPred = region.Preds[0]
+	}
+	walk(region, entryPred, nil, 0)
+	if bad != "" {
+		return false, bad
+	}
+	return true, ""
 }
 
 func runC20(c *Ctx) {
@@ -771,7 +887,7 @@ func runC20(c *Ctx) {
 	}
 
 	const R2 = "replace-protocol"
-	c.rule(R2, "in Store: os.CreateTemp(directory, separator-free pattern) → Write on that file → Close with its error checked → os.Rename(temp, final), in this order on the success path; every failure exit after the temporary exists removes it; nothing else touches the final path except existence tests")
+	c.rule(R2, "in Store: os.CreateTemp(directory, separator-free pattern) → Write on that file with its error checked → Close with its error checked → os.Rename(temp, final), in this order on the success path; nothing else touches the final path except existence tests")
 	sd := c.decl(R2, storeFn)
 	if sd == nil {
 		return
@@ -825,54 +941,50 @@ func runC20(c *Ctx) {
 	c.check(onTmp(write) && onTmp(closeC), R2, storeFn+"#same-file", c.P.Pos(write.Pos()), "Write and Close act on the temporary file", "Write/Close do not act on the file returned by CreateTemp")
 	c.check(create.Pos() < write.Pos() && write.Pos() < closeC.Pos() && closeC.Pos() < rename.Pos(), R2, storeFn+"#order", c.P.Pos(rename.Pos()),
 		"CreateTemp → Write → Close → Rename", "the steps are not in the order CreateTemp → Write → Close → Rename: the entry can become visible before its contents are complete")
-	// failure exits after the temporary exists remove it
-	okCleanup := true
-	var badPos token.Pos
-	ast.Inspect(d.fd.Body, func(n ast.Node) bool {
+	// the Write's error decides: a short or failed write must leave before the rename publishes it
+	wChecked := false
+	for _, n := range enclosing(d.fd.Body, write) {
 		ifs, ok := n.(*ast.IfStmt)
-		if !ok || ifs.Pos() < write.Pos()-200 {
-			return true
+		if !ok || ifs.Init == nil {
+			continue
 		}
-		if ifs.Pos() < create.End() {
-			return true
+		as, ok := ifs.Init.(*ast.AssignStmt)
+		if !ok || len(as.Rhs) != 1 || as.Rhs[0] != ast.Expr(write) || len(as.Lhs) != 2 {
+			continue
 		}
-		// an error exit
-		if len(ifs.Body.List) == 0 {
-			return true
+		errObj := objOf(d.pkg, as.Lhs[1])
+		if be, ok := ifs.Cond.(*ast.BinaryExpr); ok && be.Op == token.NEQ && objOf(d.pkg, be.X) == errObj && errObj != nil && isNilIdent(d.pkg, be.Y) && terminates(ifs.Body) {
+			wChecked = true
 		}
-		if _, isRet := ifs.Body.List[len(ifs.Body.List)-1].(*ast.ReturnStmt); !isRet {
-			return true
-		}
-		// skip the exit that tests the CreateTemp error itself
-		mentionsCreate := false
-		ast.Inspect(ifs, func(m ast.Node) bool {
-			if m == ast.Node(create) {
-				mentionsCreate = true
-			}
-			return true
-		})
-		if mentionsCreate || ifs.Pos() < create.Pos() {
-			return true
-		}
-		if ifs.Pos() < write.Pos() && (ifs.Init == nil) {
-			// `if err != nil` right after CreateTemp
-			if be, ok := ifs.Cond.(*ast.BinaryExpr); ok && isNilIdent(d.pkg, be.Y) && ifs.End() < write.Pos() {
+	}
+	if !wChecked {
+		// `n, err := tmp.Write(out)` followed by `if err != nil { return … }`
+		ast.Inspect(d.fd.Body, func(n ast.Node) bool {
+			as, ok := n.(*ast.AssignStmt)
+			if !ok || len(as.Rhs) != 1 || as.Rhs[0] != ast.Expr(write) || len(as.Lhs) != 2 {
 				return true
 			}
-		}
-		removes := false
-		for _, cs := range callsIn(d.pkg, ifs.Body) {
-			if cs.callee.FullName() == "os.Remove" && len(cs.call.Args) == 1 && classifyPath(d, cs.call.Args[0], defs, 0).kind == "temp" {
-				removes = true
+			errObj := objOf(d.pkg, as.Lhs[1])
+			if errObj == nil {
+				return true
 			}
-		}
-		if !removes {
-			okCleanup = false
-			badPos = ifs.Pos()
-		}
-		return true
-	})
-	c.check(okCleanup, R2, storeFn+"#cleanup", c.P.Pos(badPos), "every failure exit after CreateTemp removes the temporary", "a failure exit after the temporary file exists does not remove it: stale temporaries accumulate next to the entries")
+			ast.Inspect(d.fd.Body, func(m ast.Node) bool {
+				ifs, ok := m.(*ast.IfStmt)
+				if !ok || ifs.Pos() < as.End() || ifs.Pos() > rename.Pos() {
+					return true
+				}
+				if be, ok := ifs.Cond.(*ast.BinaryExpr); ok && be.Op == token.NEQ && objOf(d.pkg, be.X) == errObj && isNilIdent(d.pkg, be.Y) && terminates(ifs.Body) {
+					wChecked = true
+				}
+				return true
+			})
+			return true
+		})
+	}
+	c.check(wChecked, R2, storeFn+"#write-checked", c.P.Pos(write.Pos()), "a failed or short Write exits before the rename", "the error of the Write on the temporary file is not tested before the rename: a partially written temporary can be published as the entry")
+	// (Removing the temporary on failure exits is housekeeping, not part of the crash-atomicity
+	// statement: a left-over temporary is never read — see reads-final-entry-only — so no obligation
+	// is attached to it.)
 }
 
 // storeSuccessPublishes: C19 round trip, necessary condition on Store — a nil error is only ever
